@@ -540,9 +540,17 @@ impl Harness for H {
             Kind::UsedChunkList,
             Kind::ShmPool,
             Kind::ShmBump,
-            Kind::ShmPoolGrow,
-            Kind::ShmBumpGrow,
         ];
+        // The `*Grow` kinds (grow() on a relocated copy of the allocator) are NOT part of the
+        // check: the shm allocators keep the creator's mapping address by design and are only ever
+        // operated by the process that created the segment; other processes see offsets. grow()
+        // through another mapping is outside the allocators' contract and outside C14 ("allocators
+        // as observed through segment-relative offsets"). H_RELOC_GROW=1 adds them for study.
+        let mut kinds = kinds.to_vec();
+        if std::env::var("H_RELOC_GROW").is_ok() {
+            kinds.push(Kind::ShmPoolGrow);
+            kinds.push(Kind::ShmBumpGrow);
+        }
         for kind in kinds {
             let mut caps = vec![1usize, 2, 3];
             if kind == Kind::BitSet {
@@ -563,7 +571,9 @@ impl Harness for H {
             );
             let depth = if quick { 4 } else if small { 6 } else { 5 };
             for cap in caps {
-                v.push((Cfg { kind, cap }, Plan { tree_depth: depth, finish_prefixes: true, frontier: None, split: 1 }));
+                // the deepest / widest configurations are spread over several workers
+                let split = if !quick && cap >= 3 { 4 } else { 1 };
+                v.push((Cfg { kind, cap }, Plan { tree_depth: depth, finish_prefixes: true, frontier: None, split }));
             }
         }
         v
